@@ -54,6 +54,28 @@ def _vc_key(ob):
     return h.hexdigest()
 
 
+class KnownIndex:
+    """Known findings of one property, keyed by (function, obligation) - exact name, or a regular expression
+    (`obligation_regex`, full match) for contracts whose clause labels carry evidence-class suffixes."""
+
+    def __init__(self, entries):
+        self.entries = list(entries)
+
+    def get(self, key, default=None):
+        import re
+        fn, nm = key
+        for k in self.entries:
+            if k["function"] == fn and k.get("obligation") == nm:
+                return k
+        for k in self.entries:
+            if k["function"] == fn and k.get("obligation_regex") and re.fullmatch(k["obligation_regex"], nm):
+                return k
+        return default
+
+    def __contains__(self, key):
+        return self.get(key) is not None
+
+
 def _work(job):
     """Verify one function (or lemma); returns a JSON-able dict."""
     kind, name, timeout_ms = job
@@ -195,7 +217,7 @@ def run_property(pid, tier="quick", seed=0, update_ledger=False, verbose=False):
     ledger = load_json(ledger_path, None)
     known = [k for k in load_json(os.path.join(ROOT, "known_findings.json"), {"findings": []})["findings"]
              if k.get("property") == pid]
-    known_ob = {(k["function"], k["obligation"]): k for k in known if k.get("status") == "known"}
+    known_ob = KnownIndex([k for k in known if k.get("status") == "known"])
 
     exitcode = 0
     natives = {}
@@ -236,7 +258,7 @@ def run_property(pid, tier="quick", seed=0, update_ledger=False, verbose=False):
                 for v in nat["violations"]:
                     key = (fn, v["clause"])
                     if key in known_ob:
-                        expected_refuted.append({"function": fn, "obligation": v["clause"], "finding": known_ob[key]["id"]})
+                        expected_refuted.append({"function": fn, "obligation": v["clause"], "finding": known_ob.get(key)["id"]})
                         continue
                     violations.append((fn, v["clause"], {"model": None, "where": "", "text": v.get("text"), "bounded": True, "native": v}))
             continue
@@ -247,7 +269,7 @@ def run_property(pid, tier="quick", seed=0, update_ledger=False, verbose=False):
             if nat is not None and nat.get("status") == "violation":
                 for v in nat["violations"][:1]:
                     if (fn, v["clause"]) in known_ob or (fn, "frame/p:" + v["clause"][6:]) in known_ob:
-                        expected_refuted.append({"function": fn, "obligation": v["clause"], "finding": known_ob.get((fn, v["clause"]), {}).get("id")})
+                        expected_refuted.append({"function": fn, "obligation": v["clause"], "finding": (known_ob.get((fn, v["clause"])) or known_ob.get((fn, "frame/p:" + v["clause"][6:])) or {}).get("id")})
                         continue
                     violations.append((fn, v["clause"], {"model": None, "where": r["file"], "text": v.get("text"), "bounded": True,
                                                         "native": v}))
@@ -262,7 +284,7 @@ def run_property(pid, tier="quick", seed=0, update_ledger=False, verbose=False):
             if key in known_ob:
                 # expected-refuted half of a known finding
                 if o["status"] == "refuted":
-                    expected_refuted.append({"function": fn, "obligation": o["name"], "finding": known_ob[key]["id"]})
+                    expected_refuted.append({"function": fn, "obligation": o["name"], "finding": known_ob.get(key)["id"]})
                 continue
             n_obl += 1
             solver_time += o["time_s"]
@@ -300,12 +322,17 @@ def run_property(pid, tier="quick", seed=0, update_ledger=False, verbose=False):
                 undecided.append(f"{fn}/{nm}: refuted, but the obligation is not in the committed ledger (contract/code shape changed)")
                 continue
             violations.append((fn, nm, o))
-    for (fn, nm), k in known_ob.items():
-        hit = any(e["function"] == fn and e["obligation"] == nm for e in expected_refuted)
-        if hit:
-            lines.append(f"KNOWN-FINDING: property={pid} {k['what']}")
+    for k in known_ob.entries:
+        hits = sorted({e["obligation"] for e in expected_refuted if e.get("finding") == k["id"]})
+        if hits:
+            lines.append(f"KNOWN-FINDING: property={pid} {k['what']}" + (f" [clauses: {', '.join(hits)}]" if "obligation_regex" in k else ""))
         else:
-            lines.append(f"NOTE: known finding {k['id']} no longer reproduces ({fn}/{nm} is discharged)")
+            bounded_only = k["function"] in p.get("native_only", [])
+            if bounded_only:
+                # a finding of a bounded (sampled) contract run: listed, but this run's sample did not contain a failing input
+                lines.append(f"KNOWN-FINDING: property={pid} {k['what']} [listed; not re-observed in this run's sample of generated inputs]")
+            else:
+                lines.append(f"NOTE: known finding {k['id']} did not reproduce in this run ({k['function']}/{k.get('obligation') or k.get('obligation_regex')})")
     # vacuity guard against the ledger
     if ledger is not None and not update_ledger:
         for fn, names in ledger.get("functions", {}).items():
